@@ -160,6 +160,14 @@ Definition addr_ok (z : Z) : Prop := 0 <= z < two64.
 Definition nodes_addr_ok (ns : list cgnode) : Prop :=
   forall n, In n ns -> addr_ok (cn_addr n) /\ forall e, In e (cn_out n) -> addr_ok (ce_addr e).
 
+(* the "same position" shorthand is written only for the address of the previous line *)
+Lemma cg_addr_same : forall p c, cg_addr p c = PSame -> p = Some c.
+Proof.
+  intros p c. unfold cg_addr. destruct p as [p|]; [|discriminate].
+  destruct (p =? c) eqn:E; [intros _; apply Z.eqb_eq in E; now subst|].
+  destruct (String.length (fmt_rel (wrap_i64 (wrap_u64 (c - p)))) <? String.length (fmt_abs c))%nat; discriminate.
+Qed.
+
 Lemma cg_addr_abs : forall p c z, cg_addr p c = PAbs z -> z = c.
 Proof.
   intros p c z. unfold cg_addr. destruct p as [p|]; [|intro H; now inversion H].
